@@ -93,3 +93,25 @@ def sharing_free_platform(n_hosts, cores=16, speed=1024.0, bw=1024.0, lat=0.5):
 
 
 SHARING_FREE_CFG = ["network/model:CM02", "network/crosstraffic:0", "network/TCP-gamma:0"]
+
+
+def small_shared_platform():
+    """3 hosts, shared links with latency, one common backbone: real sharing (used by the metamorphic checks C01/C02)"""
+    hosts = [{"name": "h0", "speed": 1024.0, "cores": 2}, {"name": "h1", "speed": 2048.0, "cores": 1},
+             {"name": "h2", "speed": [512.0, 1024.0], "cores": 4, "disks": [{"name": "d2", "read_bw": 4096.0, "write_bw": 2048.0}]}]
+    links = [{"name": "l0", "bw": 10000.0, "lat": 0.001}, {"name": "l1", "bw": 5000.0, "lat": 0.01},
+             {"name": "l2", "bw": 20000.0, "lat": 0.0005, "policy": "FATPIPE"}, {"name": "bb", "bw": 8000.0, "lat": 0.002}]
+    routes = [{"src": "h0", "dst": "h1", "links": ["l0", "bb", "l1"]}, {"src": "h0", "dst": "h2", "links": ["l0", "bb", "l2"]},
+              {"src": "h1", "dst": "h2", "links": ["l1", "l2"]}]
+    return {"hosts": hosts, "links": links, "routes": routes}
+
+
+def run_exec(scenario, prefix=(), env=None, cpu=20, wall=180):
+    """Run the scenario in a brand-new process (own address-space layout), optionally behind a command prefix (setarch -R)."""
+    import os
+    path = core.write_tmp(json.dumps(scenario))
+    try:
+        r = core.run(list(prefix) + [build.drv("s4u_interp"), path], cpu=cpu, wall=wall, env=build.runtime_env(env))
+    finally:
+        os.unlink(path)
+    return Log(r)
